@@ -100,8 +100,22 @@ QUICK = ["sc-1", "CsCl-2", "NaCl-prim-2", "NaCl-conv-8-interleaved", "diamond-pr
          "mono-P21-2", "tri-P1-3"]
 
 
+def extra_crystals():
+    """Crystals used by single checks for one feature (not part of the common walk)."""
+    L = []
+    # P4mm, two species on the same Wyckoff letter 4d (x,x,z); the second orbit is listed starting with its (-x,x,z) member, so the
+    # two symmetry-independent representatives sit on differently oriented mirror planes (conjugate, not equal, site groups)
+    x1, z1, x2, z2 = 0.21, 0.13, 0.34, 0.58
+    L.append(_c("P4mm-dd-8", [[5.3, 0, 0], [0, 5.3, 0], [0, 0, 4.1]], ["Ga"] * 4 + ["As"] * 4,
+                [[x1, x1, z1], [-x1, -x1, z1], [-x1, x1, z1], [x1, -x1, z1], [-x2, x2, z2], [x2, -x2, z2], [x2, x2, z2], [-x2, -x2, z2]], polar=True))
+    # base-centred orthorhombic cell in a non-standard axis setting (centring vector (1/2,0,1/2): "B" centring, standard is A or C)
+    L.append(_c("ortho-B-conv-4", [[3.1, 0, 0], [0, 3.9, 0], [0, 0, 4.7]], ["Ga", "Ga", "As", "As"],
+                [[0, 0, 0], [.5, 0, .5], [0, .37, 0], [.5, .37, .5]], polar=True))
+    return L
+
+
 def by_name():
-    return {c["name"]: c for c in all_crystals()}
+    return {c["name"]: c for c in all_crystals() + extra_crystals()}
 
 
 def variants(c, seed=0):
